@@ -61,8 +61,16 @@ theorem alLookup_erase_ne {k k' : κ} (h : k' ≠ k) : ∀ (l : List (κ × α))
       by_cases h0 : k0 = k
       · subst h0
         have : ¬ k0 = k' := fun e => h e.symm
-        simp [alLookup, this]
+        simp [alLookup, this, alLookup_erase_ne h r]
       · simp only [h0, if_false, alLookup, alLookup_erase_ne h r]
+
+theorem alLookup_erase_self (k : κ) : ∀ (l : List (κ × α)), alLookup k (alErase k l) = none
+  | [] => rfl
+  | (k0, v0) :: r => by
+      simp only [alErase]
+      by_cases h0 : k0 = k
+      · simp [h0, alLookup_erase_self k r]
+      · simp [h0, alLookup, alLookup_erase_self k r]
 
 theorem mem_alInsert (lt : κ → κ → Bool) {k : κ} {v : α} {e : κ × α} :
     ∀ {l : List (κ × α)}, e ∈ alInsert lt k v l → e = (k, v) ∨ e ∈ l
@@ -89,7 +97,7 @@ theorem mem_alErase {k : κ} {e : κ × α} : ∀ {l : List (κ × α)}, e ∈ a
   | (k0, v0) :: r, h => by
       simp only [alErase] at h
       split at h
-      · exact List.mem_cons_of_mem _ h
+      · exact List.mem_cons_of_mem _ (mem_alErase h)
       · simp at h; rcases h with h | h
         · simp [h]
         · exact List.mem_cons_of_mem _ (mem_alErase h)
@@ -166,36 +174,60 @@ theorem filterMap_pat_nil (es : List Elem) (h : es.all (fun e => !e.isPat) = tru
 
 theorem parseElems_shape (env : RegexEnv) (k : SetKind) (es : List Elem) (new : SetObj)
     (hno : ar = true ∨ (k = .aspath → es.all (fun e => !e.isPat) = true))
-    (h : parseElems env k es = some new) : shapeOk ar k new = true ∧ shapeOk ar k new.fresh = true := by
+    (h : parseElems env k es = some new) : shapeOk ar k new = true := by
   cases k <;> simp only [parseElems] at h
-  · simp at h; subst h; simp [shapeOk, SetObj.fresh]
-  · simp at h; subst h; simp [shapeOk, SetObj.fresh]
+  · split at h
+    · simp at h; subst h; simp [shapeOk]
+    · simp at h
+  · simp at h; subst h; simp [shapeOk]
   · rcases hno with har | hno
     · subst har
       split at h
-      · simp at h; subst h; simp [shapeOk, SetObj.fresh]
+      · simp at h; subst h; simp [shapeOk]
       · simp at h
     · have hnil := filterMap_pat_nil es (hno rfl)
       rw [hnil] at h
-      simp at h; subst h; simp [shapeOk, SetObj.fresh]
+      simp at h; subst h; simp [shapeOk]
   · cases hm : List.mapM (parseCommunity env) (es.filterMap Elem.pat?) with
     | none => simp [hm] at h
-    | some l => simp [hm] at h; subst h; simp [shapeOk, SetObj.fresh]
+    | some l => simp [hm] at h; subst h; simp [shapeOk]
   · split at h
-    · simp at h; subst h; simp [shapeOk, SetObj.fresh]
+    · simp at h; subst h; simp [shapeOk]
     · simp at h
   · split at h
-    · simp at h; subst h; simp [shapeOk, SetObj.fresh]
+    · simp at h; subst h; simp [shapeOk]
     · simp at h
 
-theorem merge_shape (k : SetKind) (ex new : SetObj) (h1 : shapeOk ar k ex = true) (h2 : shapeOk ar k new = true) :
-    shapeOk ar k (ex.merge new) = true := by
-  cases k <;> cases ex <;> cases new <;> simp_all [shapeOk, SetObj.merge]
-  rcases h1 with h | h
-  · exact Or.inl h
-  · rcases h2 with h' | h'
-    · exact Or.inl h'
-    · exact Or.inr ⟨h, h'⟩
+theorem fresh_shape (k : SetKind) (new f : SetObj) (h1 : shapeOk ar k new = true) (h : new.fresh = some f) :
+    shapeOk ar k f = true := by
+  cases new with
+  | «prefix» es z z6 =>
+      simp only [SetObj.fresh, Option.map_eq_some_iff] at h
+      obtain ⟨l, _, rfl⟩ := h
+      cases k <;> simp_all [shapeOk]
+  | neighbor l => simp [SetObj.fresh] at h; subst h; exact h1
+  | aspath a b => simp [SetObj.fresh] at h; subst h; exact h1
+  | strs l => simp [SetObj.fresh] at h; subst h; exact h1
+
+theorem merge_shape (k : SetKind) (ex new m : SetObj) (h1 : shapeOk ar k ex = true) (h2 : shapeOk ar k new = true)
+    (h : ex.merge new = some m) : shapeOk ar k m = true := by
+  cases k <;> cases ex <;> cases new <;> simp [shapeOk] at h1 h2 <;> simp only [SetObj.merge] at h
+  · split at h
+    · simp at h
+    · split at h
+      · simp at h
+      · simp at h; subst h; simp [shapeOk]
+  · simp at h; subst h; simp [shapeOk]
+  · simp at h; subst h
+    simp only [shapeOk, Bool.or_eq_true, List.isEmpty_iff, List.append_eq_nil_iff]
+    rcases h1 with h | h
+    · exact Or.inl h
+    · rcases h2 with h' | h'
+      · exact Or.inl h'
+      · exact Or.inr ⟨by simpa using h, by simpa using h'⟩
+  · simp at h; subst h; simp [shapeOk]
+  · simp at h; subst h; simp [shapeOk]
+  · simp at h; subst h; simp [shapeOk]
 
 theorem foldl_filter_nil {β} (l : List β) (f : List String → β → List String)
     (hf : ∀ b, f [] b = []) : l.foldl f [] = [] := by
@@ -301,35 +333,45 @@ theorem Inv.addDefinedSet (env : RegexEnv) {t : Table} (hi : Inv ar t) (k : SetK
           by_cases he : new.isEmpty = true
           · have e : t.addDefinedSet env k name es = (t, .invalid) := by simp [Table.addDefinedSet, hp, hl, he]
             rw [e]; exact hi
-          · have e : t.addDefinedSet env k name es =
-                ({ t with sets := alInsert setKeyLt (k, name) new.fresh t.sets }, .ok) := by
-              simp [Table.addDefinedSet, hp, hl, he]
-            rw [e]
-            refine hi.set_sets k name _ ?_ (fun key hk => alLookup_insert_ne _ hk _ _) ?_
-            · intro e he
-              rcases mem_alInsert _ he with rfl | he
-              · exact hsh.2
-              · exact hi.sets e he
-            · intro e he k' n' o snap hc heq
-              have := ((hi.stmts e he).2 _ hc).1
-              simp only [condClosed, heq, hl] at this
-              cases this
+          · cases hf : new.fresh with
+            | none =>
+                have e : t.addDefinedSet env k name es = (t, .invalid) := by simp [Table.addDefinedSet, hp, hl, he, hf]
+                rw [e]; exact hi
+            | some f =>
+                have e : t.addDefinedSet env k name es =
+                    ({ t with sets := alInsert setKeyLt (k, name) f t.sets }, .ok) := by
+                  simp [Table.addDefinedSet, hp, hl, he, hf]
+                rw [e]
+                refine hi.set_sets k name _ ?_ (fun key hk => alLookup_insert_ne _ hk _ _) ?_
+                · intro e he
+                  rcases mem_alInsert _ he with rfl | he
+                  · exact fresh_shape k new f hsh hf
+                  · exact hi.sets e he
+                · intro e he k' n' o snap hc heq
+                  have := ((hi.stmts e he).2 _ hc).1
+                  simp only [condClosed, heq, hl] at this
+                  cases this
       | some ex =>
           by_cases hu : setInUse t k name = true
           · have e : t.addDefinedSet env k name es = (t, .inUse) := by simp [Table.addDefinedSet, hp, hl, hu]
             rw [e]; exact hi
           · have hu' : setInUse t k name = false := by simpa using hu
-            have e : t.addDefinedSet env k name es =
-                ({ t with sets := alInsert setKeyLt (k, name) (ex.merge new) t.sets }, .ok) := by
-              simp [Table.addDefinedSet, hp, hl, hu']
-            rw [e]
-            refine hi.set_sets k name _ ?_ (fun key hk => alLookup_insert_ne _ hk _ _) ?_
-            · intro e he
-              rcases mem_alInsert _ he with rfl | he
-              · exact merge_shape k ex new (hi.sets _ (alLookup_mem hl)) hsh.1
-              · exact hi.sets e he
-            · intro e he k' n' o snap hc
-              exact setInUse_false_ne hu' he hc
+            cases hm : ex.merge new with
+            | none =>
+                have e : t.addDefinedSet env k name es = (t, .invalid) := by simp [Table.addDefinedSet, hp, hl, hu', hm]
+                rw [e]; exact hi
+            | some m =>
+                have e : t.addDefinedSet env k name es =
+                    ({ t with sets := alInsert setKeyLt (k, name) m t.sets }, .ok) := by
+                  simp [Table.addDefinedSet, hp, hl, hu', hm]
+                rw [e]
+                refine hi.set_sets k name _ ?_ (fun key hk => alLookup_insert_ne _ hk _ _) ?_
+                · intro e he
+                  rcases mem_alInsert _ he with rfl | he
+                  · exact merge_shape k ex new m (hi.sets _ (alLookup_mem hl)) hsh hm
+                  · exact hi.sets e he
+                · intro e he k' n' o snap hc
+                  exact setInUse_false_ne hu' he hc
 
 theorem Inv.eraseSet {t : Table} (hi : Inv ar t) (k : SetKind) (name : String) (hu : setInUse t k name = false) :
     Inv ar { t with sets := alErase (k, name) t.sets } :=
